@@ -22,10 +22,17 @@ import (
 
 // hxResolve strips conversions and looks through a load of a local Alloc
 // (named results spilled because of a defer, `var x T` locals) to the value
-// last stored into it in the same block before the load.
+// last stored into it in the same block before the load, and through a
+// parameter of a private helper with a single call site to the argument
+// passed there (x_hpack_r.go).
 func hxResolve(v ssa.Value) ssa.Value {
-	for i := 0; i < 8; i++ {
+	for i := 0; i < 12; i++ {
 		v = core.StripConv(v)
+		if a, isP := hxParamArg(v); isP {
+			// parameter of a private helper with a single call site: the argument
+			v = a
+			continue
+		}
 		u, ok := v.(*ssa.UnOp)
 		if !ok || u.Op != token.MUL {
 			return v
@@ -193,27 +200,14 @@ func hxRelOf(cond ssa.Value, pol bool) (hxRel, bool) {
 	return r, true
 }
 
-// hxRelsAt lists the relations established on every path to b.
-func hxRelsAt(b *ssa.BasicBlock) []hxRel {
-	var out []hxRel
-	for _, g := range core.GuardsAt(b) {
-		if r, ok := hxRelOf(g.Cond, g.Pol); ok {
-			out = append(out, r)
-		}
-	}
-	return out
-}
+// hxRelsAt lists the relations established on every path to b: the guards in
+// b's function (named booleans built with && / || read back into the facts
+// they stand for) and, when that function is a private helper with a single
+// call site, the guards at the site (hxGuardsAt).
+func hxRelsAt(b *ssa.BasicBlock) []hxRel { return hxRelsOf(hxGuardsAt(b)) }
 
 // hxRelsOnEdge lists the relations established when control moves pred->succ.
-func hxRelsOnEdge(pred, succ *ssa.BasicBlock) []hxRel {
-	var out []hxRel
-	for _, g := range core.GuardsOnEdge(pred, succ) {
-		if r, ok := hxRelOf(g.Cond, g.Pol); ok {
-			out = append(out, r)
-		}
-	}
-	return out
-}
+func hxRelsOnEdge(pred, succ *ssa.BasicBlock) []hxRel { return hxRelsOf(hxGuardsOnEdge(pred, succ)) }
 
 func hxRelStrs(rs []hxRel) string {
 	var s []string
@@ -229,6 +223,15 @@ func hxRelStrs(rs []hxRel) string {
 func hxNonNeg(v ssa.Value) bool {
 	if hxLenArg(v) != nil {
 		return true
+	}
+	if c, ok := hxResolve(v).(*ssa.Call); ok {
+		// lengths reported by the standard library and cap() are never negative
+		if core.CallIs(&c.Call, "bytes.Buffer.Len", "bytes.Buffer.Cap", "strings.Builder.Len", "bytes.Reader.Len", "strings.Reader.Len") {
+			return true
+		}
+		if b, isB := c.Call.Value.(*ssa.Builtin); isB && b.Name() == "cap" {
+			return true
+		}
 	}
 	b, ok := v.Type().Underlying().(*types.Basic)
 	return ok && b.Info()&types.IsUnsigned != 0
@@ -521,6 +524,10 @@ func hxSliceHas(v ssa.Value, pred func(ssa.Value) bool) bool {
 			return true
 		}
 		switch x := v.(type) {
+		case *ssa.Parameter:
+			if a, ok := hxParamArg(x); ok {
+				return walk(a, d+1)
+			}
 		case *ssa.Phi:
 			for _, e := range x.Edges {
 				if walk(e, d+1) {
@@ -629,6 +636,7 @@ func hxExtract(call *ssa.Call, i int) ssa.Value {
 // branch no effect is reachable and every return carries a non-nil error.
 // It returns a description of what is wrong, "" when the obligation holds.
 func hxErrChecked(fn *ssa.Function, call *ssa.Call, effect func(ssa.Instruction) bool) string {
+	fn = call.Parent() // the obligation is decided in the frame of the call (a region helper or the anchor)
 	sig := call.Call.Signature()
 	n := sig.Results().Len()
 	if n == 0 {
@@ -674,11 +682,31 @@ func hxErrChecked(fn *ssa.Function, call *ssa.Call, effect func(ssa.Instruction)
 		break
 	}
 	if test == nil {
+		// `return f()`: every path from the call ends in a return of this very error, before any effect
+		handed := false
+		bad := core.ReachAvoiding(fn, call, nil, func(in ssa.Instruction) bool {
+			if r, isRet := in.(*ssa.Return); isRet {
+				if hxResolve(hxErrResult(r)) == errv {
+					handed = true
+					return false
+				}
+				return true
+			}
+			return effect != nil && effect(in)
+		})
+		if handed && bad == nil && fn.Signature.Results().Len() > 0 {
+			return ""
+		}
 		return "the error result is never compared with nil"
 	}
 	isTest := func(in ssa.Instruction) bool { return in == ssa.Instruction(test) }
 	if bad := core.ReachAvoiding(fn, call, isTest, func(in ssa.Instruction) bool {
-		return core.IsReturn(in) || (effect != nil && effect(in))
+		if r, isRet := in.(*ssa.Return); isRet {
+			// a return that hands the untested error on to the caller is the
+			// `return f()` idiom: the caller's test is a separate obligation
+			return hxResolve(hxErrResult(r)) != errv
+		}
+		return effect != nil && effect(in)
 	}); bad != nil {
 		return "a path from the call reaches " + hxDescribe(bad) + " before the error is tested"
 	}
@@ -875,10 +903,17 @@ func hxIndexBounds(c *core.Ctx, rule string, fn *ssa.Function) {
 // fact established on every way into a dominator still describes the values
 // it was computed from when b runs.
 func hxDisjGuard(b *ssa.BasicBlock, match func(g core.Guard) bool) bool {
-	for d := b; d != nil; d = d.Idom() {
-		if core.AllEdgesGuarded(d, match) {
-			return true
+	for depth := 0; depth < 5 && b != nil; depth++ {
+		for d := b; d != nil; d = d.Idom() {
+			if hxAllEdgesGuarded(d, match) {
+				return true
+			}
 		}
+		s, ok := hxSiteOf.Load(b.Parent())
+		if !ok {
+			break
+		}
+		b = s.(*ssa.Call).Block()
 	}
 	return false
 }
